@@ -351,6 +351,9 @@ def run(ctx):
     r1_5(ctx, fx)
     r1_6(ctx)
     r1_7(ctx)
+    # scaled comparisons of generators (is_matching_closure_point) share the cross-multiplication rule of C02
+    from rules.c02 import r2_8
+    r2_8(ctx)
     from rules import c13
     ctx.rule("R13.4", "see C13")
     c13.r13_4(ctx)
